@@ -2794,7 +2794,9 @@ class RockRidge:
                 special = True
                 mincomp = comp
             else:
-                mincomp = b'a'
+                # The smallest piece that can be recorded of this component: one
+                # byte of it, or nothing at all if the component is empty.
+                mincomp = comp[:1]
 
             offset = 0
             done = False
@@ -2842,7 +2844,9 @@ class RockRidge:
 
                 offset += length
 
-                curr_comp_area_length = curr_comp_area_length - length - 2
+                # The component record takes its two header bytes plus the bytes
+                # of the component that were put into it.
+                curr_comp_area_length -= RRSLRecord.Component.length(compslice)
 
                 if special:
                     done = True
